@@ -372,7 +372,7 @@ def _split(target):
 def verify_contract(contract, timeout_ms=10000, max_paths=400, only=None):
     """returns dict(obligations=[...], paths=n, calls=..., undecided=[...])"""
     _Budget.spent = 0.0
-    _Budget.limit = max(60.0, 6.0 * timeout_ms / 1000.0)
+    _Budget.limit = max(60.0, 3.0 * timeout_ms / 1000.0)
     f = resolve_target(contract.target)
     results = []
     work = [[]]
